@@ -1239,6 +1239,53 @@ def _index_order(prog, res):
                         'under the other one\'s index, so occurrence bounds '
                         'are compared with transposed counts' % unparse(c))
     res.floor('R13', 'index consumption sites', n, 1)
+    # the sparse -> contiguous index map is kept per list object
+    k_ = 0
+    for sub in walk_no_defs(f.node):
+        if isinstance(sub, ast.Subscript) and unparse(sub.value) == 'idxmap':
+            k_ += 1
+            per_list = any(isinstance(y, ast.Name) and y.id == 'ninst'
+                           for y in ast.walk(sub.slice))
+            where = '%s:%d' % (f.module.relpath, sub.lineno)
+            res.ob('R13', where, 'simple_dict_to_object keys idxmap by %s' %
+                   unparse(sub.slice), 'ok' if per_list else 'VIOLATED')
+            if not per_list:
+                res.finding('R13', 'simple_dict_to_object|index-map-key',
+                            where, 'the index map is keyed by %s, not by the '
+                            'list the index belongs to: lists reached '
+                            'through members of one name share a map, so '
+                            'orders[1].lines[0] finds the position recorded '
+                            'for orders[0].lines and indexes the still empty '
+                            'list (IndexError out of the WSGI callable, or '
+                            'items filed under the wrong parent)' %
+                            unparse(sub.slice))
+    res.floor('R13', 'idxmap subscripts', k_, 1)
+    # the pattern that finds the indexes admits every index, not only 0-9
+    import re as _re
+    m_ = sdd.module
+    v = m_.consts.get('RE_HTTP_ARRAY_INDEX')
+    if v is None:
+        raise AnalysisError('simple.RE_HTTP_ARRAY_INDEX', 'not found')
+    src = v.args[0] if isinstance(v, ast.Call) and v.args else v
+    okf, pat = (True, src.value) if isinstance(src, ast.Constant) else \
+        try_fold(prog, m_, src)
+    if okf and isinstance(pat, str):
+        rx = _re.compile(pat)
+        samples = ['a[0]', 'a[9]', 'a[10]', 'a[123]', 'a[4096]']
+        bad = [x for x in samples if rx.findall(x) != [x[2:-1]]]
+        where = '%s:%d' % (m_.relpath, v.lineno)
+        res.ob('R13', where, 'RE_HTTP_ARRAY_INDEX = %r finds the index of '
+               '%d/%d sample keys' % (pat, len(samples) - len(bad),
+                                      len(samples)),
+               'VIOLATED' if bad else 'ok')
+        if bad:
+            res.finding('R13', 'RE_HTTP_ARRAY_INDEX|index-width', where,
+                        'the pattern %r does not find the index in %s: such '
+                        'keys are not recognised as array members and are '
+                        'dropped before any validation or counting (items '
+                        'from index 10 on vanish over HttpRpc)' % (pat, bad))
+    else:
+        res.unclass('R13', m_.relpath, 'RE_HTTP_ARRAY_INDEX is not constant')
 
 
 def rule_r15(prog, res):
@@ -1637,6 +1684,31 @@ def rule_r21(prog, res):
                     'to max_len/pattern/values: b"abcdef" is delivered')
 
 
+def rule_r22(prog, res):
+    res.rule('R22', 'get_cls_attrs applies the attributes given for the '
+             'protocol class first and those given for the protocol instance '
+             'last (instances override classes)')
+    p = prog.cls('spyne.protocol._base:ProtocolMixin')
+    f = p.methods.get('get_cls_attrs')
+    if f is None:
+        raise AnalysisError('ProtocolMixin.get_cls_attrs', 'not found')
+    gets = sorted([c for c in calls_in(f.node) if call_name(c) == 'get' and
+                   isinstance(c.func, ast.Attribute) and
+                   'prot_attrs' in unparse(c.func.value) and c.args],
+                  key=lambda c: (c.lineno, c.col_offset))
+    keys = [unparse(c.args[0]) for c in gets]
+    res.floor('R22', 'prot_attrs look-ups in get_cls_attrs', len(keys), 2)
+    ok = bool(keys) and keys[-1] == 'self' and 'self.__class__' in keys[:-1]
+    res.ob('R22', f.where, 'get_cls_attrs applies prot_attrs of %s, in that '
+           'order' % keys, 'ok' if ok else 'VIOLATED')
+    if not ok:
+        res.finding('R22', 'ProtocolMixin.get_cls_attrs|override-order',
+                    f.where, 'the attributes keyed by the protocol instance '
+                    'are not the last ones applied (%s): the class-wide '
+                    'min/max_occurs, nullable or max_str_len replace the '
+                    'per-endpoint ones every reader validates with' % keys)
+
+
 def run(prog, res, tier):
     res.run_rule(rule_r1, prog, res)
     res.run_rule(rule_r2, prog, res)
@@ -1660,6 +1732,7 @@ def run(prog, res, tier):
     res.run_rule(rule_r19, prog, res)
     res.run_rule(rule_r20, prog, res)
     res.run_rule(rule_r21, prog, res)
+    res.run_rule(rule_r22, prog, res)
 
 
 _X = 'spyne/protocol/xml.py'
@@ -1673,6 +1746,22 @@ _I = 'spyne/protocol/_inbase.py'
 _SI = 'spyne/protocol/dictdoc/simple.py'
 
 MUTANTS = [
+    Mutant('index-map-keyed-by-member-name', 'R13', 'fire', _SI,
+           in_func('SimpleDictDocument.simple_dict_to_object',
+                   "_m = idxmap[id(ninst)]", "_m = idxmap[pkey]"),
+           'index-map-key'),
+    Mutant('prot-attrs-class-overrides-instance', 'R22', 'fire',
+           'spyne/protocol/_base.py',
+           in_func('ProtocolMixin.get_cls_attrs',
+                   r"            cls_attrs = cls\.Attributes\.prot_attrs\.get\("
+                   r"self\.__class__, \{\}\)\n(.*?)attr\.update\(inst_attrs\)\n",
+                   "            for key in (self, self.__class__):\n"
+                   "                attr.update(cls.Attributes.prot_attrs.get("
+                   "key, {}))\n", regex=True), 'override-order'),
+    Mutant('array-index-one-digit', 'R13', 'fire', _SI,
+           in_func(None, 'RE_HTTP_ARRAY_INDEX = re.compile(r"\\[([0-9]+)]")',
+                   'RE_HTTP_ARRAY_INDEX = re.compile(r"\\[([0-9])]")'),
+           'index-width'),
     Mutant('decoded-bytes-text-unvalidated', 'R21', 'fire', _H,
            in_func('HierDictDocument._from_dict_value',
                    "                                and not cls.validate_string"
